@@ -301,6 +301,7 @@ func (m *collection) mergerMain(stackDirtyMid, stackDirtyBase *segmentStack,
 			atomic.AddUint64(&m.stats.TotMergerEmptyDirtyMid, 1)
 			m.m.Lock() // Allow an empty stackDirtyMid to kick persistence.
 			stackDirtyMidPrev := m.stackDirtyMid
+			stackDirtyMid.addRef() // m.stackDirtyMid holds its own ref-count.
 			m.stackDirtyMid = stackDirtyMid
 			m.m.Unlock()
 
